@@ -143,8 +143,23 @@ def skeleton(cond):
 
 
 FORMS = ["ifelse", "ifelse", "ifelse", "assert", "early-return", "match"]
-PATTERNS = ["int()", "str()", "None", "1", '"a"', "A()", "B()", "[]", "[_, *_]", "(_, _)", "{}", "int() | str()", "E.a",
-            "bool()", "list()", "tuple()", "float()", "[int(), *_]", "True", "0 | 1", "E.a | E.b", "dict()"]
+def _sequence_patterns():
+    """Every sequence pattern with 0-3 fixed positions around an optional star (brackets and
+    parentheses), plus capturing and typed sub-patterns."""
+    out = []
+    for before in range(0, 3):
+        for after in range(0, 3):
+            if before + after <= 3:
+                out.append("[" + ", ".join(["_"] * before + ["*_"] + ["_"] * after) + "]")
+        if 0 < before <= 3:
+            out.append("[" + ", ".join(["_"] * before) + "]")
+    out += ["[]", "(_, _)", "(_, *_)", "(*_, _)", "[*rest]", "[first, *rest]", "[*init, last]", "[a, b, *rest]",
+            "[int(), *_]", "[*_, str()]", "[int(), str()]", "[int(), str(), *_]", "[1, *_]", "[*_, 1]"]
+    return sorted(set(out))
+
+
+PATTERNS = ["int()", "str()", "None", "1", '"a"', "A()", "B()", "{}", "int() | str()", "E.a",
+            "bool()", "list()", "tuple()", "float()", "True", "0 | 1", "E.a | E.b", "dict()"] + _sequence_patterns()
 
 
 def render(i, tsrc, form, cond):
